@@ -20,6 +20,9 @@ refine_layers on it.  z3 decides, for every value of the symbols:
   conformity      no node lies in the open interior of any column edge
   connections     (evaluated on the path, names are concrete) two columns share
                   an edge <=> a connection joins them, and it carries that edge
+  saved-names     (evaluated on the path, names are concrete) the node / column
+                  names of the edited geometry stay distinct for the geometry file
+                  reader, so the saved mesh is the same tiling (replay: real write + read)
   layers-*        refine_layers: new layers tile the old ones (symbolic z),
                   per-column volume and num_layers are what the surface implies
 """
@@ -438,7 +441,27 @@ def _check_plan(ob, geo, before, vol_before, promises_connections, check_volume,
     if promises_connections:
         bad = connection_defects(geo)
         ob.prove(not bad, 'connections', 'shared edge <=> connection (%s)' % '; '.join(bad[:3]))
+    # --- the edited geometry as a geometry FILE (concrete names on this path) -----------
+    bad = naming_defects(geo)
+    ob.prove(not bad, 'saved-names', 'node / column names stay distinct when the geometry is written and read back, so the saved mesh is the same tiling (%s)' % '; '.join(bad[:3]))
     return dict(columns=len(after), unchanged=unchanged, edges=len(edges))
+
+
+def naming_defects(geo):
+    """Concrete: the geometry file reader keys nodes and columns by
+    name.strip().rjust(colname_length) and ignores a second node / column of
+    the same name; two names of the edited geometry that it cannot tell apart
+    mean that the saved geometry loses columns (the replay writes and reads the
+    real file and compares column count and area)."""
+    bad = []
+    L = geo.colname_length
+    for kind, names in (('node', [n.name for n in geo.nodelist]), ('column', [cl.name for cl in geo.columnlist])):
+        seen = {}
+        for nm in names:
+            k = nm.strip().rjust(L)
+            if k in seen: bad.append('%s names %r and %r are one name in a geometry file' % (kind, seen[k], nm))
+            seen[k] = nm
+    return bad
 
 
 def connection_defects(geo, with_dict=False):
@@ -620,8 +643,9 @@ def task_layers(fam, layers, factor, name):
         sel = set(layers) if layers else set(range(len(old)))
         expect = 1 + sum(factor if i in sel else 1 for i in range(1, len(old)))
         ob.prove(len(new) == expect, 'layers-count', '%d layers expected, %d found' % (expect, len(new)))
-        ob.prove(z3.And(new[0][0] == old[0][0], new[0][1] == old[0][1], z3.BoolVal(new[0][2] == old[0][2])),
-                 'layers-atmosphere', 'atmosphere layer keeps name and elevations')
+        ob.prove(z3.And(new[0][0] == old[0][0], new[0][1] == old[0][1],
+                        z3.BoolVal(new[0][2] == old[0][2] or old[0][2] in [n[2] for n in new[1:]])),
+                 'layers-atmosphere', 'atmosphere layer keeps its elevations, and its name unless that is one of the regenerated layer names')
         ob.prove(len(set(n[2] for n in new)) == len(new) and all(geo.layer[l.name] is l for l in geo.layerlist) and len(geo.layer) == len(new),
                  'layers-names', 'layer names unique and dict agrees with list')
         for i in range(1, len(new)):
@@ -737,6 +761,26 @@ def catalogue(tier):
                              dict(R22, surf='deep', conv=2), dict(R22, nz=1, surf='mixed'), dict(R22, nz=3, surf='mixed2', conv=3)]):
         if thorough or k < 3:
             plan(fam, [dict(op='refine', sel=[0, 3])], 'R2x2v%d/refine/03' % k)
+    # --- the same meshes as a geometry FILE may describe them: connections filed with their columns in the
+    # other order (all of them / every second one), left-justified names
+    RF = dict(R22, conn_flip='all'); RA = dict(R22, conn_flip='alt'); RL = dict(R22, justify='l')
+    if thorough:
+        filecases = [(RF, sel, 'x') for sel in _subsets(4)] + [(RF, [i], b) for i in range(4) for b in ('y', True)]
+        filecases += [(RF, sel, True) for sel in ([1, 2], [0, 3], [0, 1, 3])] + [(RF, sel, False) for sel in ([0], [1, 2], [0, 1, 3])]
+        filecases += [(RA, sel, 'y') for sel in _subsets(4)] + [(RA, sel, b) for sel in ([0], [1, 2]) for b in (True, False)]
+        filecases += [(RL, sel, b) for sel in ([0], [3], [1, 2], [0, 1, 2, 3]) for b in ('x', True, False)]
+    else:
+        filecases = [(RF, [0], 'x'), (RF, [0], 'y'), (RF, [3], 'x'), (RF, [1, 2], True), (RF, [1, 2], False),
+                     (RA, [0], 'y'), (RA, [3], 'x'), (RA, [1, 2], True), (RL, [0], 'x'), (RL, [1, 2], False)]
+    for fam, sel, b in filecases:
+        ftag = 'flip' if fam is RF else ('altflip' if fam is RA else 'ljust')
+        plan(fam, [dict(op='refine', sel=sel, bisect=b)], 'R2x2%s/refine-bisect=%s/%s' % (ftag, b, ''.join(map(str, sel))))
+    if thorough:
+        plan(RL, [dict(op='split', col=0, node=1)], 'R2x2ljust/split/c0n1')
+        plan(RL, [dict(op='triangulate', col=2)], 'R2x2ljust/triangulate/c2')
+    plan(RF, [dict(op='refine', sel=[0], bisect='y', edge=[1, 3])], 'R2x2flip/bisect-y+edge/0|13')
+    plan(RA, [dict(op='split', col=0, node=1)], 'R2x2altflip/split/c0n1')
+    plan(RF, [dict(op='refine', sel=[0]), dict(op='refine', sel='triangles', bisect=True)], 'R2x2flip/bisect-after-refine/0>triangles')
     # --- refine on RECT(3x3) --------------------------------------------------------
     if thorough:
         sels = {}
@@ -760,6 +804,12 @@ def catalogue(tier):
     for nm in (['single-centre', 'single-corner', 'boundary-pair', 'strip'] if thorough else ['single-centre']):
         plan(R33, [dict(op='refine', sel=R33_SHAPES[nm], bisect=True)], 'R3x3/bisect-longest/%s' % nm)
     plan(R33, [dict(op='refine', sel=[0, 1, 2], edge=[3, 4, 5])], 'R3x3/refine+edge/row0|row1')
+    # edge columns that touch no bisected side (left / right of a column bisected in y): nothing to do for them
+    plan(R33, [dict(op='refine', sel=[4], bisect='y', edge=[3, 5])], 'R3x3/bisect-y+edge/4|35')
+    if thorough:
+        plan(R33, [dict(op='refine', sel=[4], bisect='x', edge=[1, 7])], 'R3x3/bisect-x+edge/4|17')
+        plan(R33, [dict(op='refine', sel=[4], bisect='y', edge=[1, 3])], 'R3x3/bisect-y+edge/4|13')
+        plan(R33, [dict(op='refine', sel=[0], bisect=True, edge=[8])], 'R3x3/bisect-longest+edge/0|8')
     if thorough:
         plan(R33, [dict(op='refine', sel=[4], edge=[1, 3, 5, 7])], 'R3x3/refine+edge/4|1357')
         plan(R33, [dict(op='refine', sel=[0, 3, 6], bisect='x', edge=[1, 4, 7])], 'R3x3/bisect-x+edge/col0|col1')
@@ -840,6 +890,12 @@ def catalogue(tier):
         for layers, f in (([2], 2), ([1, 3], 3), ([], 2)):
             lay(L21, layers, f, 'R2x1x3/refine_layers/%s/x%d' % (''.join(map(str, layers)) or 'all', f))
     lay(dict(kind='RECT', nx=1, ny=1, nz=2, surf='free', atm=0), [1], 2, 'R1x1x2atm0/refine_layers/1/x2')
+    # the atmosphere layer of a geometry may have any name, also one that the regenerated sequence will use
+    lay(dict(kind='RECT', nx=1, ny=1, nz=2, surf='free', atm=0, atm_name=' 3'), [], 2, 'R1x1x2atm0name3/refine_layers/all/x2')
+    if thorough:
+        lay(dict(kind='RECT', nx=1, ny=1, nz=2, surf='free', atm=1, atm_name=' 3'), [2], 3, 'R1x1x2atm1name3/refine_layers/2/x3')
+        lay(dict(kind='RECT', nx=1, ny=1, nz=2, surf='free', atm=2, atm_name=' 4'), [1], 4, 'R1x1x2atm2name4/refine_layers/1/x4')
+        lay(dict(kind='RECT', nx=1, ny=1, nz=2, surf='free', atm=0, atm_name='tp'), [], 2, 'R1x1x2atm0nametp/refine_layers/all/x2')
     if thorough:
         lay(dict(kind='RECT', nx=1, ny=1, nz=2, surf='free', atm=1, conv=1), [], 3, 'R1x1x2atm1/refine_layers/all/x3')
         lay(dict(kind='RECT', nx=2, ny=2, nz=2, surf='mixed', conv=2), [2], 2, 'R2x2x2/refine_layers/2/x2')
@@ -854,6 +910,8 @@ RULE = ('one obligation = one z3 query "path condition AND NOT clause" for one c
 def run(tier, seed, rep):
     _load()
     tasks = catalogue(tier)
+    only = os.environ.get('C11_ONLY')          # development aid: run the tasks whose name contains one of these substrings
+    if only: tasks = [t for t in tasks if any(o in t[1]['name'] for o in only.split(','))]
     if seed:
         import random
         random.Random(seed).shuffle(tasks)
@@ -868,6 +926,8 @@ def run(tier, seed, rep):
         '(above the top, at the top, strictly inside a layer, at a layer boundary, below the bottom); all 15 column subsets, full refinement and x / y / longest-side bisection; 3-5 bisected-edge-column configurations',
         'RECT(3x3): %s selections (quick: 4 named shapes: single, strip, L, ring with hole; thorough: those plus every single column, rows, columns, 14 further patterns) - NOT all 511 subsets' % ('46' if tier == 'thorough' else '4'),
         'QUADFAM: Q1 = quadrilateral (0,0)(1,0)(a,b)(0,1) with a,b>0, a+b>1 and its centre specified at (1/2,1/2); Q4 = 2x2 unit squares whose shared node is moved to (a,b), |a-1|+|b-1|<1, centres left at the cell centres; symbolic origin',
+        'RECT(2x2) as a geometry file may describe it: every connection (or every second one) filed with its two columns in the other order, and left-justified names: x / y / longest-side bisection and full refinement of %s' % ('all 15 / selected subsets' if tier == 'thorough' else '3 subsets') + '; bisected edge columns that touch no bisected side (RECT(3x3))',
+        'refine_layers with an atmosphere layer whose name is one the regenerated sequence uses (and one it does not use)',
         'earlier refinements: RECT(2x2) refined at column 0, then refined again (each single column of the result, all, all triangles)',
         'two-step splits: split_column of a column, then of an adjacent quadrilateral, all 16 node choices (RECT(2x2); a second pair and Q4 in the thorough tier)',
         'decompose_columns: rectangular centre column with 1-6 hanging (straight) nodes distributed over its sides at symbolic positions, lined with small symbolic neighbour columns (%d distributions; the 7-node ones also with the node list started at each of the 7 nodes); %d concrete convex 5..9-gons with symbolic surfaces/layers/query point' % (len(HANG_SHAPES if tier == 'thorough' else HANG_QUICK), len(CONC_SHAPES) if tier == 'thorough' else 3),
